@@ -785,6 +785,7 @@ fn main() {
         repl: arg_val(&args, "--repl").map(|v| v == "on"),
         cap: arg_val(&args, "--cap"),
         twins: args.iter().any(|a| a == "--twins"),
+        manual: args.iter().any(|a| a == "--manual"),
         latin1: args.iter().any(|a| a == "--latin1"),
         modes: arg_val(&args, "--modes").map(|v| v.split(',').map(|x| x.to_string()).collect()),
         thin: arg_usize(&args, "--thin", 0),
